@@ -21,7 +21,11 @@ META = {
         "the node set: acyclic <=> OPTIMAL/FEASIBLE + permutation with every edge forward, any cycle <=> INFEASIBLE; "
         "condense = frozenset SCCs, keys = nodes, successor lists without self/duplicate entries, edge <=> some original "
         "edge joins the two components, result acyclic (outside class: judged on the spanned graph and on the induced "
-        "graph, alarm only if wrong under both). Sub-check `edges`: *_edges(backend='python') on 0..n-1 judged by the same "
+        "graph, alarm only if wrong under both). Call history: every case owns ONE neighbour-function object over one mutable "
+        "adjacency dict; after the first round of the three calls, 0-3 generated edits (add edge / remove edge / add self "
+        "loop) are applied in place and after each one all three functions are called again (generated call order) with "
+        "the same function object and an equal - or the identical - node sequence, each answer judged on the graph as it "
+        "is at that moment (bucket suffix :stale-after-graph-edit when the answer fits an earlier state). Sub-check `edges`: *_edges(backend='python') on 0..n-1 judged by the same "
         "oracle and compared with the callback variants. Non-trivial = >=1 SCC of size >=2 and >=2 SCCs. Distinct = "
         "canonical JSON of the case."
     ),
